@@ -59,9 +59,9 @@ type aggengFakeCH struct {
 	srv      *http.Server
 	mu       sync.Mutex
 	inserts  []aggengInsert
-	other    []string            // non-INSERT queries seen
+	other    []string               // non-INSERT queries seen
 	onInsert func(ins aggengInsert) // called (outside mu) before the 200 answer is written
-	failNext atomic.Int32        // >0: answer the next INSERTs with HTTP 500 (fault injection)
+	failNext atomic.Int32           // >0: answer the next INSERTs with HTTP 500 (fault injection)
 	failed   atomic.Int32
 }
 
@@ -129,30 +129,30 @@ func (f *aggengFakeCH) Inserts() []aggengInsert {
 // ---------------------------------------------------------------- independent RowBinary reader
 
 type aggengHostArg struct {
-	Raw     []byte
-	Null    bool   // size field == -1: no argument
-	ArgRaw  []byte // the `size` bytes of the ClickHouse string (includes the trailing terminator)
-	HasVal  bool
-	Val     float32
+	Raw    []byte
+	Null   bool   // size field == -1: no argument
+	ArgRaw []byte // the `size` bytes of the ClickHouse string (includes the trailing terminator)
+	HasVal bool
+	Val    float32
 }
 
 type aggengRow struct {
-	IndexType uint8
-	Metric    int32
-	Time      uint32
-	PreTag    uint32
-	PreSTag   string
-	Tags      [format.MaxTags]int32
-	STags     [format.MaxTags]string
+	IndexType                                 uint8
+	Metric                                    int32
+	Time                                      uint32
+	PreTag                                    uint32
+	PreSTag                                   string
+	Tags                                      [format.MaxTags]int32
+	STags                                     [format.MaxTags]string
 	Count, MaxCount, Min, Max, Sum, SumSquare float64
-	Centroids [][2]float32 // mean, weight as written
-	PercRaw   []byte
-	UniqSkip  uint8
-	UniqItems []uint32
-	UniqRaw   []byte
-	MinHost, MaxHost, MaxCountHost aggengHostArg
-	Off, Len  int
-	seen      map[string]bool
+	Centroids                                 [][2]float32 // mean, weight as written
+	PercRaw                                   []byte
+	UniqSkip                                  uint8
+	UniqItems                                 []uint32
+	UniqRaw                                   []byte
+	MinHost, MaxHost, MaxCountHost            aggengHostArg
+	Off, Len                                  int
+	seen                                      map[string]bool
 }
 
 type aggengRd struct {
@@ -360,9 +360,9 @@ func aggengParseBody(ins aggengInsert) ([]aggengRow, error) {
 // ---------------------------------------------------------------- the aggregator instance
 
 type aggengConfig struct {
-	Name     string            // aggregator host name, also used in file names
-	Replica  int               // 1..3
-	Mappings map[string]int32  // pre-seeded tag mappings (written through the real chunked-file format)
+	Name     string           // aggregator host name, also used in file names
+	Replica  int              // 1..3
+	Mappings map[string]int32 // pre-seeded tag mappings (written through the real chunked-file format)
 	Tweak    func(c *ConfigAggregator)
 }
 
